@@ -125,6 +125,9 @@ def check_and_set(W, ob, variant, flag, floor):
         cfg = cfg_of(f)
         setb = [w['bb'] for w in st if W.ctx(f).expr_rvalue(w['site'].rv) == ('int', 1)]
         followed = s.bb in setb or (bool(setb) and cfg.path_from_avoiding(s.bb, setb) is None)
+        if not followed:
+            # ... or set first, then emitted: a set inside the tested region (its own guard still has the flag clear) that dominates the emission
+            followed = any(cfg.dominates(b, s.bb) and guard_has_bool(W.guard(f, b), 'self.' + flag, False) for b in setb)
         ob.check(tested and followed, '%s|%s|test-and-set' % (short(f.path), variant),
                  'Event::%s in %s is emitted only if `%s` is clear and sets it' % (variant, short(f.path), flag),
                  'Event::%s in %s: flag tested=%s, flag set on every following path=%s -- the event can be emitted twice '
